@@ -236,7 +236,7 @@ def mc_tree(depth):
 def p_c02(q):
     if q:
         return [mc_router('T'), mc_tree(4), gen_bfs('O', 4, module='MC_RouterO', consts={'L': 4}, sample=0.012), gen_bfs('O', 3, name='bfsO3', module='MC_RouterO', consts={'L': 4}, dump=True), gogen('addonly', 80)]
-    return [mc_router('T'), mc_tree(6), REPOTESTS, gen_bfs('O', 4, module='MC_RouterO', consts={'L': 5}, dump=True, sample=0.03), gen_bfs('O', 3, name='bfsO3', module='MC_RouterO', consts={'L': 5}, dump=True), gen_bfs('O', 2, name='bfsO2L6', module='MC_RouterO', consts={'L': 6}),
+    return [mc_router('T'), mc_tree(6), REPOTESTS, gen_bfs('O', 4, module='MC_RouterO', consts={'L': 5}, dump=True, sample=0.03), gen_bfs('O', 3, name='bfsO3', module='MC_RouterO', consts={'L': 5}, dump=True), dict(gen_bfs('O', 2, name='bfsO2L6', module='MC_RouterO', consts={'L': 6}), timeout=5400),   # (TLC needs ~20 min to order the 19 687 probe paths)
             gogen('addonly', 2000)]
 
 
